@@ -457,6 +457,9 @@ class _Ops:
                 img = Image(data, grid)
                 arg, cwd = self.full(name), None
                 call = lambda: sitk.WriteImage(img.sitk(), arg, compress)
+            elif entry == "to_uri":
+                img = Image(data, grid)
+                call = lambda: img.to_uri(str(arg), compress=compress)
             else:
                 img = Image(data, grid)
                 call = lambda: img.write(arg, compress=compress)
@@ -569,22 +572,28 @@ class _Ops:
             self.c["probes"]["read_of_unacknowledged_path_skipped"] += 1
             return StepResult("skipped", "unacked")
 
+        ac = op.get("ac")
+        kw = {} if ac is None else {"align_corners": bool(ac)}
+
         def call():
             if entry == "Image.read":
-                im = Image.read(arg)
+                im = Image.read(arg, **kw)
+                return im.tensor(), im.grid()
+            if entry == "Image.from_uri":
+                im = Image.from_uri(str(arg), **kw)
                 return im.tensor(), im.grid()
             if entry == "read_image":
                 return read_image(arg)
             if entry == "Grid.from_file":
-                return None, Grid.from_file(arg)
+                return None, Grid.from_file(arg, **kw)
             if entry == "FlowField.read":
-                f = FlowField.read(arg)
+                f = FlowField.read(arg, **kw)
                 return f, f.grid()
             if entry == "from_sitk":
-                im = Image.from_sitk(sitk.ReadImage(p))
+                im = Image.from_sitk(sitk.ReadImage(p), **kw)
                 return im.tensor(), im.grid()
             if entry == "FlowField.from_sitk":
-                f = FlowField.from_sitk(sitk.ReadImage(p))
+                f = FlowField.from_sitk(sitk.ReadImage(p), **kw)
                 return f, f.grid()
             if entry == "meta_bytes":
                 with open(p, "rb") as fh:
@@ -604,6 +613,12 @@ class _Ops:
         data, grid = r
         out = StepResult("ok", "")
         hdr = header_of(grid)
+        if kw:
+            # the reader was told which normalised coordinate convention the returned grid should use; everything
+            # else about the sampling grid comes from the file
+            self.c["checks"]["read_with_align_corners_argument"] += 1
+            if bool(grid.align_corners()) != bool(ac):
+                out.violations.append(self.viol("grid-differs", entry, name, rec, {"field": "align_corners", "want": bool(ac), "got": bool(grid.align_corners())}, f":{rec.writer}->deepali"))
         if entry in ("FlowField.read", "FlowField.from_sitk"):
             if rec.kind != "flow":
                 # any image with C == D can be read as a flow field: compare the raw components
@@ -868,7 +883,7 @@ class _Gen:
                     if rng.chance(0.15):
                         op["entry"] = "sitk_bridge"
                 else:
-                    op["entry"] = rng.weighted([("Image.write", 3), ("write_image", 2), ("batch_item", 1), ("sitk_bridge", 1)])
+                    op["entry"] = rng.weighted([("Image.write", 3), ("write_image", 2), ("batch_item", 1), ("sitk_bridge", 1), ("to_uri", 0.6)])
                 op["layout"] = rng.weighted([("contig", 5)] + [(l, 1) for l in LAYOUTS[1:]])
                 if sc["faults"]["failed_write"] and suffix_of(name) in NATIVE_BYTES and rng.chance(0.25):
                     op["fault"] = {"frac": rng.round(0.0, 1.0, 2)}
@@ -885,7 +900,7 @@ class _Gen:
             op = {"op": kind, "name": name}
             if kind == "dread":
                 rec = self.rec.get(name)
-                entries = [("Image.read", 4), ("read_image", 2), ("Grid.from_file", 1)]
+                entries = [("Image.read", 4), ("read_image", 2), ("Grid.from_file", 1), ("Image.from_uri", 0.7)]
                 entries.append(("from_sitk", 1))
                 if rec is not None and (rec.kind == "flow" or rec.desc.get("C") == rec.desc.get("D")):
                     entries.append(("FlowField.read", 5 if rec.kind == "flow" else 1))
@@ -902,8 +917,10 @@ class _Gen:
                 self.read_how[name] = (op["entry"], op["form"])
                 if op["entry"] in ("from_sitk", "FlowField.from_sitk"):
                     op["form"] = "str"
-                if op["entry"] in ("Image.read", "read_image", "FlowField.read") and rng.chance(0.4):
+                if op["entry"] in ("Image.read", "Image.from_uri", "read_image", "FlowField.read") and rng.chance(0.4):
                     op["hold"] = True
+                if op["entry"] in ("Image.read", "Image.from_uri", "Grid.from_file", "FlowField.read", "from_sitk", "FlowField.from_sitk") and rng.chance(0.3):
+                    op["ac"] = bool(rng.chance(0.5))
                 if op["entry"] == "meta_reader":
                     op["chunk"] = rng.choice([1, 3, 7, 64]) if sc["faults"]["short_io"] else 1 << 20
             return op
@@ -945,6 +962,10 @@ class IoEngine:
             o = dict(op)
             o.pop("fault")
             out.append(o)
+        if "ac" in op:
+            o = dict(op)
+            o.pop("ac")
+            out.append(o)
         if op.get("form") not in (None, "str"):
             o = dict(op)
             o["form"] = "str"
@@ -953,11 +974,11 @@ class IoEngine:
             o = dict(op)
             o["layout"] = "contig"
             out.append(o)
-        if op.get("entry") in ("write_image", "batch_item", "sitk_bridge"):
+        if op.get("entry") in ("write_image", "batch_item", "sitk_bridge", "to_uri"):
             o = dict(op)
             o["entry"] = "Image.write"
             out.append(o)
-        if op.get("entry") in ("read_image", "meta_bytes", "meta_reader", "Grid.from_file", "from_sitk"):
+        if op.get("entry") in ("read_image", "meta_bytes", "meta_reader", "Grid.from_file", "from_sitk", "Image.from_uri"):
             o = dict(op)
             o["entry"] = "Image.read"
             out.append(o)
